@@ -211,7 +211,7 @@ func c19FullDoc() ym {
 		kv("schedule", "0 0 1 1 *"),
 		kv("logDir", "/tmp/verif-c19-unused-logdir"),
 		// the last two names already exist in the loading process (see c19Body)
-		kv("env", []any{ym{kv("VERIF_C19_E1", "v1")}, ym{kv("VERIF_C19_E2", "v2")}, ym{kv("VERIF_C19_PRESET", "changed-by-the-definition")}, ym{kv("PATH", "/verif-c19-bin:${PATH}")}}),
+		kv("env", []any{ym{kv("VERIF_C19_E1", "v1")}, ym{kv("VERIF_C19_E2", "v2")}, ym{kv("VERIF_C19_PRESET", "changed-by-the-definition")}, ym{kv("VERIF_C19_PRESET2", nil)}, ym{kv("PATH", "/verif-c19-bin:${PATH}")}}),
 		kv("params", "p1 VERIF_C19_P=p2"),
 		kv("preconditions", cond("x", "x")),
 		kv("handlerOn", ym{
@@ -427,7 +427,7 @@ func c19Body(c *core.Ctx) {
 			jb, _ := json.Marshal(sp)
 			sf := filepath.Join(root, fmt.Sprintf("spec-%v.json", control))
 			_ = os.WriteFile(sf, jb, 0644)
-			res, err := gate.Run(gate.Opts{LogExec: true, Env: []string{"TZ=UTC", "VERIF_C19_PRESET=set-by-the-server", "1=positional-one-of-an-earlier-load", "2=positional-two", "3=positional-three", "4=positional-four"}, Timeout: 90 * time.Second}, c.Scratch, self, "c19worker", sf)
+			res, err := gate.Run(gate.Opts{LogExec: true, Env: []string{"TZ=UTC", "VERIF_C19_PRESET=set-by-the-server", "VERIF_C19_PRESET2=named-without-a-value-by-the-definition", "1=positional-one-of-an-earlier-load", "2=positional-two", "3=positional-three", "4=positional-four"}, Timeout: 90 * time.Second}, c.Scratch, self, "c19worker", sf)
 			if err != nil || res == nil {
 				return nil, nil
 			}
@@ -531,6 +531,6 @@ func init() {
 				{Name: "concurrent", Mode: "concurrent", Shards: 8, Timeout: 40 * time.Minute}}
 		},
 		Exhaustive:  func(tier string) bool { return true },
-		Rule:        "A full definition containing every string-valued field of the grammar (name, group, description, tags, schedule, logDir, env list and map, params, DAG and step preconditions, four handlers, smtp, error/info mail, functions, step description/dir/command (string and list)/script/stdout/stderr/output/depends/executor type and nested config/call args/sub-workflow and its params/step env/signalOnStop) is enumerated leaf by leaf: each string leaf in turn is replaced by a plant (`touch canary`, text with an embedded backtick command, $(touch canary), NAME=`touch canary`; plus 24 (600) randomly generated valid definitions with a plant at a random string leaf; thorough: minimal documents, every field at once). For each document one worker process, traced by the ptrace supervisor with execve logging, runs 30 non-executing entry points in sequence, each bracketed by a phase mark: dag.LoadYAML / LoadMetadata / LoadWithoutEval, DAGStore.GetMetadata / GetDetails / GetSpec / List / ListPagination / Grep / Find / TagList / UpdateSpec, client.GetStatus / GetAllStatus / GetDAGSpec / UpdateDAG / Grep, the assembled web API (GET /dags, paginated list, GET /dags/{id} for five tabs, /search, /tags, POST save) and the scheduler daemon (directory scan, watcher reload, one tick). After every phase: canary file exists (command executed), os.Environ() differs from before the phase, the supervisor logged an execve of a descendant between the phase marks (field-agnostic). Positive control: for fields that starting a DAG evaluates (env values, logDir, a parameter that is a backtick command) dag.Load on the same document must create the canary, and on the plain document must export the env/params variables — otherwise the run is inconclusive. Concurrent pass: 64 (600) cases in which 4 goroutines make 300 (800) non-executing calls each (LoadYAML, LoadWithoutEval, LoadMetadata, client.GetStatus, DAGStore.Find, GET /dags and /dags/{id}) on a definition with a command substitution planted in a step / handler command or sub-workflow parameters, while 3 goroutines of the same process run the real step scheduler on benign command steps (whose node set-up evaluates substitutions of their own); the canary must not appear. exhaustive=true refers to the enumeration of string leaves of the full document x entry points. Non-trivial/distinct = (field, plant).",
+		Rule:        "A full definition containing every string-valued field of the grammar (name, group, description, tags, schedule, logDir, env list and map incl. names already set in the process and one named without a value, params, DAG and step preconditions, four handlers, smtp, error/info mail, functions, step description/dir/command (string and list)/script/stdout/stderr/output/depends/executor type and nested config/call args/sub-workflow and its params/step env/signalOnStop) is enumerated leaf by leaf: each string leaf in turn is replaced by a plant (`touch canary`, text with an embedded backtick command, $(touch canary), NAME=`touch canary`; plus 24 (600) randomly generated valid definitions with a plant at a random string leaf; thorough: minimal documents, every field at once). For each document one worker process, traced by the ptrace supervisor with execve logging, runs 30 non-executing entry points in sequence, each bracketed by a phase mark: dag.LoadYAML / LoadMetadata / LoadWithoutEval, DAGStore.GetMetadata / GetDetails / GetSpec / List / ListPagination / Grep / Find / TagList / UpdateSpec, client.GetStatus / GetAllStatus / GetDAGSpec / UpdateDAG / Grep, the assembled web API (GET /dags, paginated list, GET /dags/{id} for five tabs, /search, /tags, POST save) and the scheduler daemon (directory scan, watcher reload, one tick). After every phase: canary file exists (command executed), os.Environ() differs from before the phase, the supervisor logged an execve of a descendant between the phase marks (field-agnostic). Positive control: for fields that starting a DAG evaluates (env values, logDir, a parameter that is a backtick command) dag.Load on the same document must create the canary, and on the plain document must export the env/params variables — otherwise the run is inconclusive. Concurrent pass: 64 (600) cases in which 4 goroutines make 300 (800) non-executing calls each (LoadYAML, LoadWithoutEval, LoadMetadata, client.GetStatus, DAGStore.Find, GET /dags and /dags/{id}) on a definition with a command substitution planted in a step / handler command or sub-workflow parameters, while 3 goroutines of the same process run the real step scheduler on benign command steps (whose node set-up evaluates substitutions of their own); the canary must not appear. exhaustive=true refers to the enumeration of string leaves of the full document x entry points. Non-trivial/distinct = (field, plant).",
 		Assumptions: []string{"the field grammar is the full document of c19.go plus the process-creation monitor, which does not depend on knowing the fields", "base configuration files are not planted"}})
 }
